@@ -38,7 +38,8 @@ def _spd(g, n, cond_hi, lo=-1.0, hi=0.5):
 def gen_case(g, tier, idx, base=None):
     r = g.r
     style = r.choice(["plain", "plain", "wna", "wna", "gausslik", "gausslik", "samebelief", "tiny", "zeros", "illcond",
-                      "neardup", "neardup", "scale", "scale", "many", "singular", "xcond", "xcond"])
+                      "neardup", "neardup", "scale", "scale", "many", "singular", "xcond", "xcond",
+                      "circular", "circular", "circular"])
     big_n = 4
     n = r.randint(1, big_n)
     k = r.randint(1, 8)
@@ -58,6 +59,17 @@ def gen_case(g, tier, idx, base=None):
         n = r.randint(2, 4)
     if style == "xcond":
         n = r.randint(2, 3)
+    # layout of the particle sets: ParticleSet(k, n - circ, circ), the last `circ` state rows are angles
+    # (non-quaternion).  Style "circular" puts the beliefs where it matters (angular means within a few
+    # standard deviations of +-pi, angles outside (-pi, pi], wide angular spreads); the other styles
+    # get a circular layout now and then, as an orthogonal dimension.
+    circ = 0
+    wide = False
+    if style == "circular":
+        lin, circ = r.choice([(1, 1), (1, 1), (0, 1), (2, 1), (1, 2), (0, 2), (3, 1), (2, 2), (0, 3)])
+        n = lin + circ
+    elif style in ("plain", "gausslik", "samebelief", "tiny", "zeros", "neardup", "many", "wna") and r.random() < 0.2:
+        circ = r.randint(1, n)
     m = r.randint(1, 3)
     pred_kind = r.choice([0, 1, 2])          # KF, UKF over an additive model, UKF over a generic StateModel
     corr_kind = r.choice([0, 1, 2, 3, 4])    # KF, UKF additive, SUKF, UKF generic MeasurementModel (4: online weights)
@@ -69,6 +81,9 @@ def gen_case(g, tier, idx, base=None):
         # another number of particles
         style = "gausslik" if base["shipped_lik"] else "plain"
         n, m, pred_kind, corr_kind, sub, seed = base["n"], base["m"], base["pred_kind"], base["corr_kind"], base["sub"], base["seed"]
+        circ = base.get("circ", 0)
+        if base["style"] == "circular":
+            style = "circular"
         alpha, beta, kappa = base["alpha"], base["beta"], base["kappa"]
         k = base.get("force_k") or r.choice([x for x in (1, 2, 3, 5, 8, 12) if x != base["k"]])
     F = g.mat(n, n, -1.0, 1.0)
@@ -88,6 +103,9 @@ def gen_case(g, tier, idx, base=None):
         return Rb
 
     def new_F():
+        if style == "circular" and r.random() < 0.5:
+            # angles carried over (nearly) unchanged: the predicted angular means stay near +-pi
+            return [[(1.0 if i == j else (r.choice([0.0, 0.0, 0.125, -0.25]) if j < i else 0.0)) for j in range(n)] for i in range(n)]
         if r.random() < 0.3:
             return [[(1.0 if i == j else (0.5 if j == i + 1 else 0.0)) for j in range(n)] for i in range(n)]
         return g.mat(n, n, -1.0, 1.0)
@@ -131,7 +149,20 @@ def gen_case(g, tier, idx, base=None):
             B = [[r.randint(-4, 4) / 2.0 for _ in range(rk)] for _ in range(n)]
             covs.append([[sum(B[a][c] * B[b][c] for c in range(rk)) for b in range(n)] for a in range(n)])
         means = [[g.dyadic(-2, 2, 3) for _ in range(n)] for _ in range(k)]
+    if style == "circular":
+        F = new_F()
+        # "wide": angular standard deviations of 1.4 .. 3 rad, so that draws land more than pi away from their
+        # own mean (where a wrapped difference x - mu' differs from the plain one); the wrapped correction is
+        # then skipped in half of the corrections so that the drawn-from covariance stays that wide
+        wide = r.random() < 0.3
+        means, covs = circular_beliefs(g, n, k, circ, wide)
     states = [[means[i][j] + r.uniform(-1, 1) for j in range(n)] for i in range(k)]
+    if style == "circular":
+        # previous positions: angles anywhere, also (far) outside (-pi, pi]
+        for i in range(k):
+            for j in range(n - circ, n):
+                if r.random() < 0.4:
+                    states[i][j] += 2 * math.pi * r.choice([-2, -1, 1, 2])
     if style == "neardup":
         # consecutive particles equal, or equal up to a tiny relative perturbation (along one direction)
         for i in range(1, k):
@@ -151,7 +182,7 @@ def gen_case(g, tier, idx, base=None):
     if style == "zeros":
         weights[0] = 0.0
     # transition density
-    if style == "wna":
+    if style == "wna" or (style == "circular" and n in (2, 4) and r.random() < 0.3):
         trans = {"kind": 1, "T": r.choice([0.5, 1.0, 2.0]), "q": r.choice([4.0, 10.0, 30.0])}
     else:
         trans = {"kind": 0}
@@ -173,11 +204,13 @@ def gen_case(g, tier, idx, base=None):
             kinds.append(r.choice("PCC"))
     if "C" not in kinds:
         kinds[-1] = "C"
-    shipped_lik = (style == "gausslik")
+    shipped_lik = (style == "gausslik") or (style == "circular" and r.random() < 0.3)
+    if base is not None:
+        shipped_lik = base["shipped_lik"]
     lik_scale = r.choice([1.0, 1.0, 0.5, 3.0]) if base is None else base["lik_scale"]
     steps = []
     for s, kd in enumerate(kinds):
-        skip = (r.random() < (0.6 if (style == "xcond" and kd == "C") else 0.12)) and not (style == "samebelief" and s == 0)
+        skip = (r.random() < (0.6 if (style == "xcond" and kd == "C") else (0.5 if (style == "circular" and wide and kd == "C") else 0.12))) and not (style == "samebelief" and s == 0)
         st = {"kind": kd, "skip": skip}
         if kd == "P":
             if vary and r.random() < 0.7:
@@ -198,6 +231,9 @@ def gen_case(g, tier, idx, base=None):
             if trans["kind"] == 0:
                 st["trans"] = cur_tr
             xs = g.vec(n, -2, 2)
+            if style == "circular":
+                # a measurement compatible with the beliefs: the corrected angular means stay near +-pi
+                xs = [v + r.uniform(-0.5, 0.5) for v in means[r.randrange(k)]]
             st["y"] = [sum(H[i][j] * xs[j] for j in range(n)) + r.uniform(-0.5, 0.5) for i in range(m)]
             st["valid"] = not (r.random() < 0.18) or (style == "samebelief" and s == 0)
             st["move"] = r.choice([1, 2]) if (s > 0 and "C" in kinds[:s] and r.random() < 0.2) else 0
@@ -235,19 +271,43 @@ def gen_case(g, tier, idx, base=None):
                     if st["lik"]["kind"] == 2:
                         st["lik"]["fail"] = 0
     meta = dict(style=style, n=n, k=k, m=m, seed=seed, pred_kind=pred_kind, corr_kind=corr_kind,
-                alpha=alpha, beta=beta, kappa=kappa, sub=sub, exo=exo, trans=trans, shipped_lik=shipped_lik, lik_scale=lik_scale,
+                alpha=alpha, beta=beta, kappa=kappa, sub=sub, exo=exo, circ=circ, trans=trans, shipped_lik=shipped_lik, lik_scale=lik_scale,
                 states=states, means=means, covs=covs, weights=weights, steps=steps)
     if style == "scale":
         rescale(meta, 10.0 ** r.choice([-9, -6, -3, 3, 6, 9]) * r.uniform(1.0, 3.0))
     if base is not None:
         return None, meta
-    if style in ("plain", "gausslik", "neardup", "zeros") and r.random() < 0.4:
+    if style in ("plain", "gausslik", "neardup", "zeros", "circular") and r.random() < 0.4:
         # the same objects go on with particle sets of other sizes (non-monotone: k, k', sometimes k again)
         segs = [gen_case(g, tier, idx, base=meta)[1]]
         if r.random() < 0.5:
             segs.append(gen_case(g, tier, idx, base=(dict(meta, force_k=meta["k"]) if r.random() < 0.5 else meta))[1])
         meta["segments"] = segs
     return harness_line(meta), meta
+
+
+def circular_beliefs(g, n, k, circ, wide=False):
+    """beliefs of a (n - circ linear, circ circular) particle set whose angular part sits where the circle
+    closes: angular means within a few standard deviations of +-pi (either side of the cut, also beyond
+    it, i.e. outside (-pi, pi]), now and then whole turns away, angular standard deviations 0.05 .. 2.5"""
+    r = g.r
+    means, covs = [], []
+    side = r.choice([1.0, -1.0])
+    for i in range(k):
+        P = g.spd(n, cond=10 ** r.uniform(0, 2.5), scale=10 ** r.uniform(-1.5, 0.8))
+        if wide:
+            P = g.spd(n, cond=10 ** r.uniform(0, 0.5), scale=10 ** r.uniform(0.3, 0.95))
+        mu = g.vec(n, -2, 2)
+        for j in range(n - circ, n):
+            sd = math.sqrt(P[j][j])
+            sgn = side if r.random() < 0.8 else -side
+            mu[j] = sgn * math.pi + r.uniform(-2.5, 2.5) * sd * r.random()
+            if r.random() < 0.15:
+                mu[j] += 2 * math.pi * r.choice([-2, -1, 1, 3])
+            if r.random() < 0.05:
+                mu[j] = sgn * math.pi          # exactly the double nearest to +-pi
+        means.append(mu); covs.append(P)
+    return means, covs
 
 
 def rescale(M, sc):
@@ -286,7 +346,7 @@ def harness_line(M):
     t = ["gpfh", str(n), str(k), str(m), str(M["seed"]), str(M["pred_kind"]), str(M["corr_kind"]),
          hexd(M["alpha"]), hexd(M["beta"]), hexd(M["kappa"]), str(M["sub"])]
     tr = M["trans"]
-    t += ["1" if M["exo"] else "0"]
+    t += ["1" if M["exo"] else "0", str(int(M.get("circ", 0)))]
     t += ["0"] if tr["kind"] == 0 else ["1", hexd(tr["T"]), hexd(tr["q"])]
     t += _seg_tokens(M, M)
     for S2 in M.get("segments", []):
@@ -695,7 +755,11 @@ def analyse(M, Hh, acc):
     Returns (wit, tols, zarr): per correction step the witness factors, the tolerances for the model
     comparison, and the draws arranged per particle (hex, column-major n×k)."""
     n, k, m = M["n"], M["k"], M["m"]
+    circ = int(M.get("circ", 0))
     prop = acc.prop
+
+    def outside(v):
+        return not (-math.pi < float(v) <= math.pi)
     prev = PSetHex(_set_tokens(n, k, M["states"], M["means"], M["covs"], M["weights"]), n, k)
     wit, tols, zarr = {}, {}, {}
     tr = M["trans"]
@@ -755,11 +819,29 @@ def analyse(M, Hh, acc):
         if any(not math.isfinite(unhex(a)) for a in hs["dmeans"] + hs["dcovs"]):
             acc.hit("note:wrapped-step-returned-non-finite-beliefs (case not decided further)")
             return None, None, None
+        if st["kind"] == "C" and not invalid and circ:
+            # Wrapped sigma points (angular spreads of the order of pi and more) can make the wrapped
+            # unscented correction return an indefinite "covariance" P - K Py K^T: then there is no Gaussian
+            # to draw from and no proposal density (log of a negative determinant) -- not decided
+            # (the belief clause, above, still is).
+            def _pd(P):
+                Ps = [[0.5 * (P[a_][b_] + P[b_][a_]) for b_ in range(n)] for a_ in range(n)]
+                return gauss_logpdf_exact([0.0] * n, P) is not None and cholesky(Ps) is not None
+            if not all(_pd(vlib.mat_from_cm(hs["dcovs"][i * n * n:(i + 1) * n * n], n, n, unhex)) for i in range(k)):
+                acc.hit("note:corrected-covariance-not-PD (case not decided)")
+                acc.hit("circular-layout:wrapped-correction-returned-indefinite-covariance:%s" % CORR_NAMES[M["corr_kind"]])
+                return None, None, None
         if any(not math.isfinite(unhex(a)) for a in cur.states + cur.weights):
             prop.append(("non-finite-output", "%s: non-finite particle position or log-weight although the beliefs are finite" % tag))
             return None, None, None
         if st["kind"] == "P":
             acc.hit("pred-wrapped:%s" % PRED_NAMES[M["pred_kind"]])
+            if circ:
+                acc.hit("circular-layout:prediction:%s" % PRED_NAMES[M["pred_kind"]])
+                if any(outside(prev.state(i)[j]) for i in range(k) for j in range(n - circ, n)):
+                    acc.hit("circular-layout:prediction-with-position-angle-outside(-pi,pi]")
+                if any(outside(cur.mean(i)[j]) for i in range(k) for j in range(n - circ, n)):
+                    acc.hit("circular-layout:predicted-angular-mean-outside(-pi,pi]")
             if st.get("hand"):
                 acc.hit("prediction-object-%s-mid-history" % ("move-constructed" if int(st["hand"]) == 1 else "move-assigned"))
             if M["exo"]:
@@ -772,6 +854,19 @@ def analyse(M, Hh, acc):
             prev = cur
             continue
         acc.hit("corr-wrapped:%s" % CORR_NAMES[M["corr_kind"]])
+        if circ:
+            acc.hit("circular-layout:correction:%s%s" % (CORR_NAMES[M["corr_kind"]], "" if st["valid"] else " (invalid likelihood)"))
+            if n == circ:
+                acc.hit("circular-layout:no-linear-component")
+            if st["valid"]:
+                for i in range(k):
+                    for j in range(n - circ, n):
+                        if outside(cur.state(i)[j]):
+                            acc.hit("circular-layout:drawn-angle-outside(-pi,pi] (a wrapped draw would differ)")
+                        if outside(cur.mean(i)[j]):
+                            acc.hit("circular-layout:corrected-angular-mean-outside(-pi,pi]")
+                        if abs(cur.state(i)[j] - cur.mean(i)[j]) > math.pi:
+                            acc.hit("circular-layout:draw-more-than-pi-from-its-mean (a wrapped difference would differ)")
         Hf = [[Fraction(x) for x in row] for row in st["H"]]
         if tr["kind"] == 0:
             Af = [[Fraction(x) for x in row] for row in st["trans"]["A"]]
@@ -826,7 +921,13 @@ def analyse(M, Hh, acc):
             # x and mu' are rounded doubles: v = x - mu' carries an absolute error eps*(|mu'|+|v|)
             vmax = max([abs(float(a)) for a in v] + [1e-300])
             canc = 1.0 + max([abs(float(a)) for a in mu] + [0.0]) / vmax
-            per.append({"mu": mu, "P": P, "x": x, "v": v, "logq": g[0], "quad": g[1], "kP": g[2], "tm": 256 * n * EPS * g[2] * canc})
+            # a corrected "covariance" that is not exactly symmetric (P - K Py K^T in floating point; relative
+            # asymmetry up to 1e-11 for the extremely anisotropic beliefs) defines the Gaussian only up to that
+            # asymmetry (LDLT reads one triangle, the exact quadratic form reads both): amplified by cond(P')
+            asym = max([abs(P[a][b] - P[b][a]) for a in range(n) for b in range(a)] + [0.0]) / max(vlib.fnorm(P), 1e-300)
+            acc.mx("max_relative_asymmetry_of_corrected_covariance", asym)
+            per.append({"mu": mu, "P": P, "x": x, "v": v, "logq": g[0], "quad": g[1], "kP": g[2],
+                        "tm": 256 * n * EPS * g[2] * canc + 2 * g[2] * asym})
             acc.mx("max_cond_P", g[2])
             if n >= 3:
                 invol, nontriv = ldlt_perm_involutive(P)
@@ -1094,6 +1195,8 @@ def run(ctx):
         "rule": "random GPF histories: 3..6 prediction/correction events (1..4 for the tiny style), n in 1..4 (6 for WNA, thorough), k in 1..8, m in 1..3, "
                 "wrapped KF/UKF prediction and KF/UKF/SUKF correction, scripted / position-dependent / shipped Gaussian likelihood, harness-defined / "
                 "WhiteNoiseAcceleration transition density, distinct beliefs per particle, invalid likelihood at scripted steps, wrapped-step skip flags; "
+                "particle sets with circular components ParticleSet(k, lin, circ) (style circular: angular means near +-pi, angles outside (-pi, pi], "
+                "angular standard deviations up to 3 rad; 20% of the cases of the other styles); "
                 "non-trivial = n*k > 1 and at least 2 events; distinct = distinct input lines",
         "samples": [{"case": describe(cases[0][1]), "harness_line": lines[0][:300]},
                     {"case": describe(cases[len(cases) // 2][1]), "harness_line": lines[len(cases) // 2][:300]},
@@ -1106,7 +1209,13 @@ def run(ctx):
                            "gpfCorrect: likelihood valid -> sample, weight": acc.hist.get("branch:valid-likelihood", 0),
                            "gaussDispatch: skip (prediction)": acc.hist.get("wrapped-skip:P", 0),
                            "gaussDispatch: skip (correction)": acc.hist.get("wrapped-skip:C", 0),
-                           "gpfPredict": acc.hist.get("step:P", 0)},
+                           "gpfPredict": acc.hist.get("step:P", 0),
+                           "gpfCorrect on a circular layout (ParticleSet(k, lin, circ)), valid likelihood":
+                               sum(v for k_, v in acc.hist.items() if k_.startswith("circular-layout:correction:") and "invalid" not in k_),
+                           "gpfSample: drawn angle outside (-pi, pi] kept as drawn (a reducing implementation would differ from the model)":
+                               acc.hist.get("circular-layout:drawn-angle-outside(-pi,pi] (a wrapped draw would differ)", 0),
+                           "gpfPredict on a circular layout with a position angle outside (-pi, pi]":
+                               acc.hist.get("circular-layout:prediction-with-position-angle-outside(-pi,pi]", 0)},
     })
     ctx.assumptions += [
         "std::normal_distribution draws are i.i.d. standard normal (libstdc++ contract; trusted): with gpf_mahalanobis this gives the chi-square law of the squared Mahalanobis distances",
